@@ -15,10 +15,9 @@ Conventions of the model:
   `getElement` (the Go comment on `getElement` demands this; every caller obeys it, and the
   correspondence suite would see a stale pointer as a lost write).
 * `Option` is the outcome of a Go call: `none` is *abnormal termination* – a run-time panic: index
-  out of range in `Get`, the slice expression `c.elements[:1]` on an empty slice in `autoReset`, a nil
-  dereference in `getElement`, `make` with a negative capacity in `New`; and, for `Range` only, a walk
-  that does not end because the links are cyclic.  None of them is reachable from a well-formed deque
-  through live handles (Props/C20), except `Reset` on the zero value.
+  out of range in `Get`, a nil dereference in `getElement`, `make` with a negative capacity in `New`;
+  and, for `Range` only, a walk that does not end because the links are cyclic.  None of them is
+  reachable from a well-formed deque through live handles (Props/C20).
 * `load`/`store` read and write through a pointer obtained from `get`; the bounds check has happened
   in `get`, so they are total (`l[p]?.getD`/`List.set` on an index known to be in range).
 * the free-slot `Stack` is a `List` whose head is the top of the Go stack.
@@ -94,14 +93,15 @@ def putElement (d : Deque) (ele : Nat) : Deque :=
   let d := { d with stack := (d.load ele).addr :: d.stack }
   d.store ele d.template
 
-/-- `autoReset`: the slice expression `c.elements[:1]` panics when `cap(c.elements) = 0`, which is the
-case exactly when `len(c.elements) = 0` (a zero value, or a clone of one, before its first push). -/
-def autoReset (d : Deque) : Option Deque :=
+/-- `autoReset`: the slot array is cut back to the sentinel slot; a zero value (or a clone of one)
+that was never pushed to has no slot array yet and keeps it that way (`if len(c.elements) > 0`; before
+that guard was added the slice expression `c.elements[:1]` panicked on the nil slice). -/
+def autoReset (d : Deque) : Deque :=
   let d := { d with head := 0, tail := 0, length := 0 }
   let d := { d with stack := [] }
-  if d.elements.length = 0 then none else some { d with elements := d.elements.take 1 }
+  if d.elements.length > 0 then { d with elements := d.elements.take 1 } else d
 
-def reset (d : Deque) : Option Deque := d.autoReset
+def reset (d : Deque) : Deque := d.autoReset
 
 def len (d : Deque) : Int := d.length
 
@@ -173,7 +173,7 @@ def popFront (d : Deque) : Option (Deque × Nat) := do
     let value := (d.load ele).value
     let d ← d.doRemove ele
     let d := d.putElement ele
-    let d ← if d.length = 0 then d.autoReset else pure d
+    let d := if d.length = 0 then d.autoReset else d
     return (d, value)
   return (d, 0)
 
@@ -183,7 +183,7 @@ def popBack (d : Deque) : Option (Deque × Nat) := do
     let value := (d.load ele).value
     let d ← d.doRemove ele
     let d := d.putElement ele
-    let d ← if d.length = 0 then d.autoReset else pure d
+    let d := if d.length = 0 then d.autoReset else d
     return (d, value)
   return (d, 0)
 
@@ -239,7 +239,7 @@ def remove (d : Deque) (addr : Nat) : Option Deque := do
   if ele ≠ 0 then
     let d ← d.doRemove ele
     let d := d.putElement ele
-    if d.length = 0 then d.autoReset else pure d
+    return if d.length = 0 then d.autoReset else d
   else return d
 
 /-- The loop of `Range`, from pointer `i`.  The callback may keep state of its own (`σ`, e.g. a
